@@ -323,6 +323,13 @@ pub proof fn lemma_d64_embedded(big: bool, s: Seq<u8>, k: int, x: u64)
         && t[4] == s[k + 4] && t[5] == s[k + 5] && t[6] == s[k + 6] && t[7] == s[k + 7]);
 }
 
+// std stand-ins that only matter for CHANGED code (0 hits on /repo): they let an edit that swallows an error reach
+// the verifier.  Contracts are those of std.
+pub assume_specification<T, E>[Result::<T, E>::unwrap_or](x: Result<T, E>, d: T) -> (v: T)
+    ensures x matches Ok(y) ==> v == y, x is Err ==> v == d;
+pub assume_specification<T: Default, E>[Result::<T, E>::unwrap_or_default](x: Result<T, E>) -> (v: T)
+    ensures x matches Ok(y) ==> v == y;
+
 /// shim for byteordered::Endianness (external crate, a plain 2-variant enum)
 #[derive(Clone, Copy)]
 pub enum Endianness { Big, Little }
@@ -473,6 +480,23 @@ impl<'a> VOrd<'a> {
             Endianness::Little => self.inner.read_u64_le(),
         }
     }
+    // stand-ins that only matter for CHANGED code (0 hits on /repo): nothing is promised about the value or the
+    // position, so an edit that starts using them is judged by the contracts below
+    #[verifier::external_body]
+    pub fn read_u32(&mut self) -> (r: Result<u32, IoError>)
+        ensures final(self).e == old(self).e, *final(final(self).inner) == *final(old(self).inner),
+            final(self).inner.content() == old(self).inner.content(), final(self).inner.env_ok() == old(self).inner.env_ok(),
+    { unimplemented!() }
+    #[verifier::external_body]
+    pub fn read_i64(&mut self) -> (r: Result<i64, IoError>)
+        ensures final(self).e == old(self).e, *final(final(self).inner) == *final(old(self).inner),
+            final(self).inner.content() == old(self).inner.content(), final(self).inner.env_ok() == old(self).inner.env_ok(),
+    { unimplemented!() }
+    #[verifier::external_body]
+    pub fn read_f32(&mut self) -> (r: Result<f32, IoError>)
+        ensures final(self).e == old(self).e, *final(final(self).inner) == *final(old(self).inner),
+            final(self).inner.content() == old(self).inner.content(), final(self).inner.env_ok() == old(self).inner.env_ok(),
+    { unimplemented!() }
     pub fn read_f64(&mut self) -> (r: Result<f64, IoError>)
         ensures final(self).e == old(self).e, *final(final(self).inner) == *final(old(self).inner),
             final(self).inner.content() == old(self).inner.content(), final(self).inner.env_ok() == old(self).inner.env_ok(),
